@@ -31,6 +31,11 @@ struct Plan
 	std::string expect_class;
 	std::string detail;
 	uint64_t fingerprint = 0;
+	// history replay: the violation needs the runs a worker process executed before it (state left behind by earlier runs);
+	// the file then names the index sequence start, start+step, ..., last instead of carrying ops
+	uint64_t hist_seed = 0, hist_start = 0, hist_last = 0, hist_step = 0;
+	int hist_tier = 0;
+	bool is_history = false;
 	int64_t c(const std::string &k, int64_t dflt = 0) const
 	{
 		auto it = cfg.find(k);
